@@ -284,6 +284,52 @@ def lstsq_balls(chk, shapes):
                 x = [sp.Symbol(f"x{i}", real=True) for i in range(nun)]
                 rad, centre = ex(p.value[1]), [ex(v) for v in p.value[2]]
                 A, b = p.value[3][0]
+                # the linear system handed to lstsq: its generic row states the defining condition of the ball
+                try:
+                    Arow, brow = _generic_row(A), _generic_row(b)
+                    if member in ("circumsphere", "circumcircle"):
+                        # row: p.x - |p|^2/2 with p = v - v0   <=>   (|v - (v0+x)|^2 - |x|^2) / (-2)
+                        resid = sum(Arow[i] * x[i] for i in range(3)) - brow[0]
+                        p_ = Arow
+                        want = -(sum((p_[i] - x[i])**2 for i in range(3)) - sum(xi * xi for xi in x)) / 2
+                        chk.prove_eq(f"{tag}:system_row_states_equidistance[{t}]", fkey, p.pc, resid, want)
+                        # ... where p really is  v_(k+1) - v_0  for the generic remaining vertex and b = |p|^2 / 2
+                        dsub = _row_dim(A)
+                        vf = sp.Function("Vh" if cls_name == "Polyhedron" else "Vm", real=True)
+                        for i in range(3):
+                            chk.prove_eq(f"{tag}:system_row_is_vertex_minus_first[{i}][{t}]", fkey, p.pc, Arow[i],
+                                         vf(dsub.k + 1, sp.Integer(i)) - vf(sp.Integer(0), sp.Integer(i)))
+                        chk.prove_eq(f"{tag}:system_rhs_is_half_squared_length[{t}]", fkey, p.pc, brow[0],
+                                     sum(Arow[i]**2 for i in range(3)) / 2)
+                    else:
+                        # row: n.c + r - n.v_f   == (signed distance of c from the face / edge line) + r
+                        resid = sum(Arow[i] * x[i] for i in range(4)) - brow[0]
+                        chk.prove_eq(f"{tag}:system_row_states_tangency[{t}]", fkey, p.pc, sp.expand(resid - x[3] * (Arow[3] - 1)),
+                                     sp.expand(sum(Arow[i] * x[i] for i in range(3)) + x[3] - brow[0]))
+                        chk.prove_eq(f"{tag}:system_row_radius_coefficient_is_one[{t}]", fkey, p.pc, Arow[3], 1)
+                        if cls_name == "Polyhedron":
+                            # the row's normal is the stored unit normal of face f and the right-hand side is n_f . (first vertex of f)
+                            o0 = H.polyhedron(shapes)
+                            E = [to_expr(o0._equations.inner[j]) for j in range(3)]
+                            P0 = H.face_vertex(0)
+                            for i in range(3):
+                                chk.prove_eq(f"{tag}:system_row_is_face_normal[{i}][{t}]", fkey, p.pc, Arow[i], E[i])
+                            chk.prove_eq(f"{tag}:system_rhs_is_normal_dot_face_vertex[{t}]", fkey, p.pc, brow[0],
+                                         sum(E[i] * P0[i] for i in range(3)))
+                        else:
+                            # outward normal of edge k: (v_(k+1) - v_k) x n, normalised; right-hand side n_out . v_k
+                            k = M.NV.k
+                            vm = sp.Function("Vm", real=True)
+                            nn = [sp.Symbol(f"nm{j}", real=True) for j in range(3)]
+                            e = [vm(sp.Mod(k + 1, M.NV.n), sp.Integer(j)) - vm(k, sp.Integer(j)) for j in range(3)]
+                            cr = [e[1] * nn[2] - e[2] * nn[1], e[2] * nn[0] - e[0] * nn[2], e[0] * nn[1] - e[1] * nn[0]]
+                            nrm = sp.sqrt(sp.factor_terms(sp.expand(sum(x_ * x_ for x_ in cr))))
+                            for i in range(3):
+                                chk.prove_eq(f"{tag}:system_row_is_outward_edge_normal[{i}][{t}]", fkey, p.pc, Arow[i] * nrm, cr[i])
+                            chk.prove_eq(f"{tag}:system_rhs_is_normal_dot_edge_start[{t}]", fkey, p.pc, brow[0],
+                                         sum(Arow[i] * vm(k, sp.Integer(i)) for i in range(3)))
+                except (paths.OutOfReach, AttributeError, IndexError, TypeError) as e:
+                    chk.out_of_reach.append(f"{tag}: linear-system row not extracted ({e})")
                 if member in ("circumsphere", "circumcircle"):
                     v0 = [to_expr(v) for v in _first_vertex(cls_name)]
                     chk.prove(f"{tag}:ball_from_solution[{t}]", fkey, p.pc,
@@ -292,6 +338,24 @@ def lstsq_balls(chk, shapes):
                     chk.prove(f"{tag}:ball_from_solution[{t}]", fkey, p.pc,
                               sp.And(sp.Eq(rad, x[3]), *[sp.Eq(centre[i], x[i]) for i in range(3)]))
         chk.record(f"{tag}:paths", fkey, "proved", "enumeration", detail=f"{len(base)} returning / raising paths compared")
+
+
+def _row_dim(a):
+    from pyvc.symnp import ConcatArr
+    if isinstance(a, ConcatArr):
+        a = a.parts[0]
+    return a.axes[0]
+
+
+def _generic_row(a):
+    """sympy expressions of the generic row of the (first, symbolic-extent) part of a system matrix / vector"""
+    from pyvc.symnp import ConcatArr
+    if isinstance(a, ConcatArr):
+        a = a.parts[0]
+    if isinstance(a, SymArr):
+        inner = a.inner
+        return [to_expr(v) for v in inner.reshape(-1)] if inner.ndim else [to_expr(inner[()])]
+    raise TypeError("no symbolic part")
 
 
 def _first_vertex(cls_name):
